@@ -338,6 +338,47 @@ impl<E: Elem> World<E> {
         self.check_reg(out, r, &op);
     }
 
+    /// resize with caller-code invocation number `k` panicking (a `T::default` while growing, the
+    /// destructor of a tail element while shrinking); the unwind is caught and the history goes on
+    /// with the survivor. A fault while growing leaves the matrix as it was; a fault in a
+    /// destructor does not stop the shrink (the remaining tail is still dropped).
+    pub fn fresize(&mut self, out: &mut Out, r: usize, k: u64, nr: usize, nc: usize) {
+        let op = format!("fresize {r} {k} {nr} {nc}");
+        out.announce(&op);
+        let m = self.regs[r].as_mut().unwrap();
+        crate::tok::set_drop_callbacks(true);
+        crate::tok::set_fuse(Some(k));
+        let res = catch(|| m.resize((nr, nc)).map(|_| ()));
+        let fired = crate::tok::LEDGER.lock().unwrap_or_else(|e| e.into_inner()).fuse.is_none();
+        crate::tok::set_fuse(None);
+        crate::tok::set_drop_callbacks(false);
+        let (order, rf) = self.refs[r].take().unwrap();
+        let (old, n) = (rf.nrows * rf.ncols, nr * nc);
+        let new_ref = if fired && n > old {
+            rf
+        } else {
+            let mut mem = rf.mem(order);
+            mem.truncate(n);
+            while mem.len() < n {
+                mem.push(match E::KIND { "unit" => "u", "tok" => "d", _ => "0" }.to_string());
+            }
+            Ref::from_mem(order, nr, nc, &mem)
+        };
+        self.refs[r] = Some((order, new_ref));
+        let m = self.regs[r].as_ref().unwrap();
+        let obs = match res {
+            None => format!("unwound | {}", st_str(m)),
+            Some(Ok(())) => format!("ok | {}", st_str(m)),
+            Some(Err(e)) => format!("err {} | {}", err_name(e), st_str(m)),
+        };
+        if res.is_none() != fired {
+            out.oracle_fail(&format!("{op}: fault fired = {fired}, but the call {}", if res.is_none() { "unwound" } else { "returned" }));
+        }
+        out.count(&format!("fresize:{}{}", if n > old { "grow" } else if n < old { "shrink" } else { "same-size" }, if fired { ":fault-fired" } else { ":completed" }));
+        out.observe(&obs);
+        self.check_reg(out, r, &op);
+    }
+
     /// the four outer view families: iter_rows / iter_cols (immutable) and iter_rows_mut /
     /// iter_cols_mut, consumed by `opat`, each inner view by `ipat`; addresses are compared with
     /// the reference (every item must be the element at its logical position)
